@@ -251,7 +251,7 @@ def shard_exhaustive(idx, n, tier, seed):
     cases = exhaustive_cases(tier)
     for i in range(idx, len(cases), n):
         check_case(cases[i], ev)
-    ev.exhaustive = True
+    ev.exhaustive = tier == "thorough"   # the quick tier strides the value set of the two-parameter shapes
     return ev, None
 
 
